@@ -3,6 +3,7 @@ import JetVerif.Model.Path
 import JetVerif.Model.Lex
 import Driver.Read
 import Driver.ParseDump
+import Driver.ExecSrc
 import JetVerif.Model.Blocks
 import JetVerif.Model.StructCache
 import JetVerif.Model.Loaders
@@ -312,6 +313,12 @@ def dispatch : Sexp → Sexp
   | .list (.atom "multi-tree" :: .atom nl :: .atom nm :: ops) => multiTreeCmd (nl.toNat?.getD 1) (nm.toNat?.getD 1) ops
   | .list [.atom "exec", store, entry, exts, esc, globals, vars, data, fuel] =>
     execDispatch store entry exts esc globals vars data fuel
+  | .list [.atom "exec-src", store, entry, exts, esc, globals, vars, data, fuel] =>
+    match ExecSrc.execSrcCmd store entry exts esc globals vars data fuel with
+    | .ok r => r
+    | .error msg =>
+      let clean := ((msg.replace " " "-").replace "(" "").replace ")" ""
+      .list [.atom "unsupported", .atom ("reader:" ++ clean)]
   | .list [.atom "lex", .bytes l, .bytes r, .bytes lc, .bytes rc, .bytes input] => lexCmd l r lc rc input
   | .list [.atom "parsetree", .bytes name, .bytes l, .bytes r, .bytes lc, .bytes rc, .bytes src, .list lits, .list files] =>
     ParseDump.parsetreeCmd name l r lc rc src lits files
